@@ -228,10 +228,47 @@ def random_worker(job):
                 ns |= {0, 1, rng.randrange(0, 2 ** 64), rng.randrange(0, 2 ** 33)}
                 triples += [(kind, n) for n in sorted(ns) if 0 <= n < 2 ** 64]
             st.inc("random_rounds")
+            overwide(st, rng, sb, ents, kinds, now_ns)
             evaluate(st, sb, ents, lst, triples, now_ns, "lib/c14.py random_worker seed=%r k=%d round=%d" % (seed, k, rd))
         finally:
             common.force_rmtree(sb)
     return st
+
+
+def overwide(st, rng, sb, ents, kinds, now_ns):
+    """Operands of 2^64 and more (round 9): no measured value reaches them, so either the operand is rejected (non-zero exit, nothing
+    selected) or it compares as the number it spells: +N and N false, -N true for every entry. Never read as some smaller number."""
+    cases, meta = [], {}
+    for i, kind in enumerate(rng.sample(kinds, 5)):
+        n = rng.choice([2 ** 64, 2 ** 64 + rng.randrange(1, 1000), 10 ** rng.randrange(20, 40), 2 ** 65 - 1, 2 ** 64 * 10])
+        for sg in ("-", "", "+"):
+            args = ["find", "d", "-sorted"] + lbl.label_args([args_for(kind, sg + str(n))])
+            cid = "w%d%s" % (i, sg)
+            cases.append((cid, args, now_ns))
+            meta[cid] = (kind, n, sg, args)
+    res = common.run_find_inproc(cases, sb, sb)
+    for cid, (kind, n, sg, args) in meta.items():
+        r = res[cid]
+        rp = {"args": args, "now_ns": now_ns, "tree": "over-wide operand"}
+        st.inc("overwide_operand_runs")
+        if r.special or r.panic:
+            st.violate("panic-or-hang", None, {"args": args, "panic": r.panic, "special": r.special}, rp)
+            continue
+        sel = lbl.parse(r.out, 1)
+        if r.code != 0:
+            if sel and sel[0]:
+                st.violate("overwide-operand", kind + sg, {"test": kind, "operand": sg + str(n), "exit": r.code, "selected": sorted(sel[0])[:5],
+                                                           "note": "rejected, yet entries were selected"}, rp)
+            else:
+                st.inc("overwide_operand_rejected")
+            continue
+        want = set(ents) if sg == "-" else set()
+        if sel is None or set(sel[0]) != want:
+            st.violate("overwide-operand", kind + sg, {"test": kind, "operand": sg + str(n), "exit": 0, "selected": None if sel is None else sorted(sel[0])[:5],
+                                                       "expected": "every entry" if sg == "-" else "no entry",
+                                                       "note": "no measured value reaches 2^64: the operand was read as a different number"}, rp)
+        else:
+            st.inc("overwide_operand_compared_as_spelled")
 
 
 def evaluate(st, sb, ents, lst, mine, now_ns, tree_desc):
